@@ -29,4 +29,4 @@ Deliver, in {out}/ (create it):
   - the demonstration file (copy of zz_seed_demo_test.go) plus demo_pkg.txt containing the package path to run it in (e.g. ./net/queue/)
   - notes.md : what the change is, why it breaks the property, what exactly is needed for it to manifest, and the commands you ran with their results (build, full test suite with the change, demo with and without the change).
 
-Verify all of this yourself before finishing: (1) `go build ./...` ok with the change, (2) the full existing test suite passes with the change, (3) the demo fails with the change, (4) after `git stash` (or reverting the change) the demo passes; then restore the change so the worktree ends in the changed state. Your final message should summarise the change in a few lines.""")
+Verify all of this yourself before finishing: (1) `go build ./...` ok with the change, (2) the full existing test suite passes with the change, (3) the demo fails with the change, (4) after reverting the change with `git apply -R <your diff>` the demo passes (never use `git stash`: stashes are shared between sibling worktrees); then re-apply the change so the worktree ends in the changed state. Your final message should summarise the change in a few lines.""")
